@@ -27,14 +27,20 @@ void env_on_write(uint8_t) {}
 }
 
 static void setVec(std::vector<uint8_t>& v, const uint8_t* src, uint8_t n) {
-  v.resize(CAP + 2);
-  for (int i = 0; i < CAP; i++) v[i] = src[i];
+  v.reserve(CAP + 2);
+  for (int i = 0; i < CAP; i++) v.push_back(src[i]);
   v._M_impl._M_finish = v._M_impl._M_start + n;   // size n, capacity CAP+2 (capacity is unobservable)
 }
 
 // the relation R between handler state and recogniser state
 static bool related(DirectProtocolHandler& h, const P& r) {
   if (h.m_currentRequest != nullptr || h.m_currentAnswering) return false;
+  // passive operation never touches the request queues or the device's arbitration state
+  if (h.m_nextRequests.peek() != nullptr || h.m_finishedRequests.peek() != nullptr) return false;
+  {
+    PlainDevice* d = static_cast<PlainDevice*>(h.m_device);
+    if (d->m_arbitrationMaster != SYN || d->m_arbitrationCheck != 0) return false;
+  }
   size_t cl = h.m_command.size(), rl = h.m_response.size();
   bool cmdEq = cl == r.mlen, resEq = rl == r.slen;
   for (int i = 0; i < CAP; i++) {
@@ -42,6 +48,8 @@ static bool related(DirectProtocolHandler& h, const P& r) {
     if (i < static_cast<int>(r.slen) && i < static_cast<int>(rl) && h.m_response.data()[i] != r.s[i]) resEq = false;
   }
   bool escEq = (h.m_escape == ESC) == r.esc && (h.m_escape == 0 || h.m_escape == ESC);
+  // the response buffer is emptied on every entry to bs_skip/bs_ready (setState) and only filled in bs_recvRes
+  if (r.ph >= P::QQ && r.ph <= P::CMDACK && rl != 0) return false;
   switch (r.ph) {
     case P::IDLE: return h.m_state == bs_noSignal || h.m_state == bs_skip;
     case P::QQ:
@@ -50,11 +58,11 @@ static bool related(DirectProtocolHandler& h, const P& r) {
     case P::ZZ: case P::PB: case P::SB: case P::NN: case P::DATA:
       return h.m_state == bs_recvCmd && cmdEq && h.m_crc == r.crc && h.m_repeat == r.cmdRepeat && escEq;
     case P::CRC: return h.m_state == bs_recvCmdCrc && cmdEq && h.m_crc == r.crc && h.m_repeat == r.cmdRepeat && escEq;
-    case P::CMDACK: return h.m_state == bs_recvCmdAck && cmdEq && h.m_crcValid == r.crcOk && h.m_repeat == r.cmdRepeat && h.m_escape == 0;
+    case P::CMDACK: return h.m_state == bs_recvCmdAck && cmdEq && h.m_crcValid == r.crcOk && h.m_repeat == r.cmdRepeat && escEq;
     case P::RNN: case P::RDATA:
       return h.m_state == bs_recvRes && cmdEq && resEq && h.m_crc == r.crc && h.m_repeat == r.resRepeat && escEq;
     case P::RCRC: return h.m_state == bs_recvResCrc && cmdEq && resEq && h.m_crc == r.crc && h.m_repeat == r.resRepeat && escEq;
-    case P::RESACK: return h.m_state == bs_recvResAck && cmdEq && resEq && h.m_crcValid == r.crcOk && h.m_repeat == r.resRepeat && h.m_escape == 0;
+    case P::RESACK: return h.m_state == bs_recvResAck && cmdEq && resEq && h.m_crcValid == r.crcOk && h.m_repeat == r.resRepeat && escEq;
   }
   return false;
 }
@@ -65,6 +73,7 @@ static bool refInv(const P& r) {
   bool hdr = r.mlen >= 1 && ref::is_master(r.m[0]) && (r.mlen < 2 || (ref::valid_addr(r.m[1]) && r.m[1] != r.m[0]));
   bool full = hdr && r.mlen >= 5 && r.mlen == 5 + r.m[4] && r.mlen <= CAP;
   bool notBc = r.m[1] != 0xFE;
+  if (r.ph >= P::QQ && r.ph <= P::CMDACK && r.slen != 0) return false;   // syn() empties the slave part, only RNN.. fills it
   switch (r.ph) {
     case P::IDLE: return true;
     case P::QQ: return r.mlen == 0 && r.crc == 0 ? true : (r.mlen == 0 && r.esc);  // after ESC the crc already covers it
@@ -74,14 +83,33 @@ static bool refInv(const P& r) {
     case P::NN: return hdr && r.mlen == 4;
     case P::DATA: return hdr && r.mlen >= 5 && r.mlen < 5 + r.m[4] && r.need == 5 + r.m[4] - r.mlen && 5 + r.m[4] <= CAP;
     case P::CRC: return full;
-    case P::CMDACK: return full && notBc && !r.esc && (r.crcOk || !r.cmdRepeat);
+    case P::CMDACK: return full && notBc && (r.crcOk || !r.cmdRepeat);
     case P::RNN: return full && notBc && !ref::is_master(r.m[1]) && r.slen == 0;
     case P::RDATA: return full && notBc && !ref::is_master(r.m[1]) && r.slen >= 1 && r.slen < 1 + r.s[0] && r.need == 1 + r.s[0] - r.slen && 1 + r.s[0] <= CAP;
     case P::RCRC: return full && notBc && !ref::is_master(r.m[1]) && r.slen >= 1 && r.slen == 1 + r.s[0] && r.slen <= CAP;
-    case P::RESACK: return full && notBc && !ref::is_master(r.m[1]) && r.slen >= 1 && r.slen == 1 + r.s[0] && r.slen <= CAP && !r.esc && (r.crcOk || !r.resRepeat);
+    case P::RESACK: return full && notBc && !ref::is_master(r.m[1]) && r.slen >= 1 && r.slen == 1 + r.s[0] && r.slen <= CAP && (r.crcOk || !r.resRepeat);
   }
   return false;
 }
+
+#ifdef VP_NATIVE
+#include <cstdio>
+#include <cstdlib>
+static void dump(const char* tag, DirectProtocolHandler& h, const P& r, TapeTransport* tr) {
+  if (!getenv("VP_DEBUG")) return;
+  fprintf(stderr, "%s: h.state=%d esc=%02x crc=%02x crcValid=%d repeat=%d cmd[%zu]=", tag, h.m_state, h.m_escape, h.m_crc, h.m_crcValid, h.m_repeat, h.m_command.size());
+  for (size_t i = 0; i < h.m_command.size() && i < CAP; i++) fprintf(stderr, "%02x ", h.m_command.data()[i]);
+  fprintf(stderr, " res[%zu]=", h.m_response.size());
+  for (size_t i = 0; i < h.m_response.size() && i < CAP; i++) fprintf(stderr, "%02x ", h.m_response.data()[i]);
+  fprintf(stderr, "| r.ph=%d esc=%d crc=%02x crcOk=%d cmdRep=%d resRep=%d need=%d m[%d]=", r.ph, r.esc, r.crc, r.crcOk, r.cmdRepeat, r.resRepeat, r.need, r.mlen);
+  for (int i = 0; i < r.mlen && i < CAP; i++) fprintf(stderr, "%02x ", r.m[i]);
+  fprintf(stderr, " s[%d]=", r.slen);
+  for (int i = 0; i < r.slen && i < CAP; i++) fprintf(stderr, "%02x ", r.s[i]);
+  fprintf(stderr, "| tr.len=%zu buf=%02x %02x nEv=%d ev=%02x %02x\n", tr->m_len, tr->m_buf[0], tr->m_buf[1], g_nEv, g_evByte[0], g_evByte[1]);
+}
+#else
+#define dump(a, b, c, d) ((void)0)
+#endif
 
 extern "C" void vp_main() {
   ebus_protocol_config_t cfg = env_config();
@@ -111,7 +139,16 @@ extern "C" void vp_main() {
   setVec(h.m_response.m_data, rs, rl);
   h.m_crc = vp_nondet_u8(); h.m_escape = vp_nondet_u8(); h.m_crcValid = vp_nondet_bool(); h.m_repeat = vp_nondet_bool();
   h.m_nextSendPos = vp_nondet_u8();
-  h.m_remainLockCount = vp_nondet_u8() % 6;
+  // bookkeeping the passive path updates (lock counters, seen addresses, latency statistics, SYN time): arbitrary, so the
+  // step covers every value earlier steps can have left behind
+  h.m_remainLockCount = vp_nondet_u8();
+  h.m_lockCount = vp_nondet_u8();
+  h.m_masterCount = vp_nondet_u8();
+  h.m_addressConflict = vp_nondet_bool();
+  for (int i = 0; i < 256; i++) h.m_seenAddresses[i] = vp_nondet_bool();
+  h.m_symbolLatencyMin = static_cast<int>(vp_nondet_u32()); h.m_symbolLatencyMax = static_cast<int>(vp_nondet_u32());
+  h.m_lastSynReceiveTime.tv_sec = static_cast<time_t>(vp_nondet_u32());
+  { uint32_t ns = vp_nondet_u32(); vp_assume(ns < 1000000000u); h.m_lastSynReceiveTime.tv_nsec = static_cast<long>(ns); }
   h.m_lastReceive = static_cast<time_t>(vp_nondet_u32());
   if (cfg.generateSyn && vp_nondet_bool()) h.m_generateSynInterval = SYN_INTERVAL;
   h.m_listenerState = static_cast<ProtocolState>(vp_nondet_u8() % 6);
@@ -135,7 +172,9 @@ extern "C" void vp_main() {
   unsigned msgBefore = lst.m_nmsg;
   unsigned faultsBefore = tr->m_nfault;
   g_nEv = 0;
+  dump("pre ", h, r, tr);
   st.step();
+  dump("post", h, r, tr);
   // ---- replay the step's events on the recogniser, in order: AUTO-SYN = timeout first, then the echoed symbol ----
   vp_assert("harness: at most two symbols per step", g_nEv <= 2);
   bool fault = tr->m_nfault != faultsBefore;
@@ -145,7 +184,10 @@ extern "C" void vp_main() {
   if (g_nEv >= 1) { r.sym(g_evByte[0]); if (r.reported) reports++; }
   if (g_nEv >= 2) { r.sym(g_evByte[1]); if (r.reported) reports++; }
   if (fault && !autoSyn) r.fault();
+  dump("ref ", h, r, tr);
   vp_known("KF-C01-QQ-NONMASTER", r.sawNonMasterQQ);
+  vp_known("KF-C01-ZZ-SELF", r.sawSelfZZ);
+  vp_known("KF-C01-ESC-SYN-STALE-CRC", r.escThenSyn);
   unsigned newMsg = lst.m_nmsg - msgBefore;
   vp_assert("reports-exactly-the-valid-telegrams-count", newMsg == reports);
   if (newMsg == 1 && reports == 1) {
@@ -157,10 +199,12 @@ extern "C" void vp_main() {
       if (j < r.slen && j < q.slen && q.s[j] != r.s[j]) same = false;
     }
     vp_assert("reported-telegram-has-same-source-destination-command-and-data", same);
+#ifndef INIT
     if (r.m[1] == 0xFE) vp_cover("bc-telegram-reported");
     else if (ref::is_master(r.m[1])) vp_cover("mm-telegram-reported");
     else if (r.resRepeat) vp_cover("ms-telegram-reported-after-response-repeat");
     else vp_cover("ms-telegram-reported");
+#endif
   }
   // telegrams larger than the buffer bound leave the claim (stated bound NNMAX)
   bool inBound = r.mlen <= CAP && r.slen <= CAP && (r.ph != P::DATA || 5 + r.m[4] <= CAP) && (r.ph != P::RDATA || 1 + r.s[0] <= CAP)
@@ -169,8 +213,12 @@ extern "C" void vp_main() {
     vp_assert("relation-preserved (induction step)", related(h, r));
     vp_assert("recogniser-invariant-preserved", refInv(r));
   }
+#ifndef INIT
   if (r.ph == P::QQ && r.cmdRepeat) vp_cover("command-repeat-after-nak");
   if (r.ph == P::IDLE && fault) vp_cover("fault-drops-telegram");
+#else
+  vp_cover("first-step-from-the-initial-state");
+#endif
   vp_observe("state", h.m_state);
   vp_observe("ph", r.ph);
 }
